@@ -198,6 +198,14 @@ def run(ctx):
         lib_part(ctx, r)
     finally:
         r.close()
+    # the same enumeration against a release-profile build (debug assertions off): the check is not a debug-only check
+    rel = ctx.family("release")
+    r2 = rel.runner(sorted(rel.bins())[0])
+    try:
+        lib_part(ctx, r2)
+        ctx.cov["lib_check_also_in_release_profile"] = True
+    finally:
+        r2.close()
 
     def per_bin(b, progs, r):
         for p in progs:
